@@ -1,6 +1,6 @@
 import RsomeV.M.Robust
 
-/-! Order-faithful model of `dro.Ambiguity.mix_support(primal=True)` (rsome/dro.py l.1013-1052):
+/-! Order-faithful model of `dro.Ambiguity.mix_support(primal=True)` (rsome/dro.py l.1047-1090):
 the *lifted support* of the pair (scenario probabilities, scaled conditional means) that the
 event-wise DRO reformulation `dro.Model.dro_to_roc` dualises.
 
@@ -12,15 +12,18 @@ Inputs (exactly what the code computes before assembling `mix_model`):
 
 Layout of the result (`mix_model.do_math(primal=True, obj=False)`):
 * columns `[ p-block (pro.lp.nc) | block 1 (exps[0].lp.nc) | block 2 | … | 3 aux columns per
-  exponential cone of pro ]`;
+  exponential cone of pro | 3 aux columns per exponential cone of block 1 | of block 2 | … ]`;
 * rows `[ rows of pro verbatim | block 1 rows in perspective form | … | 3 copy rows per
-  exponential cone of pro ]` (`lin_constr` first, then `aux_constr`);
+  exponential cone, in the same order as the aux columns ]` (`lin_constr` first, then
+  `aux_constr`);
 * second-order cones: those of `pro`, then those of every block shifted by the block offset;
 * exponential cones: `mix_model` receives `ExpConstr(p[e0], p[e1], p[e2])` for every cone of
-  `pro`; `gcp.Model.do_math` gives each of them three fresh auxiliary columns `a0 a1 a2` (created
-  after all blocks) with rows `a0 - p[e0] == 0`, `a1 - p[e1] <= 0`, `a2 - p[e2] == 0`;
-* **exponential cones of the expectation programs are not forwarded** (the loop over
-  `exp_support.xmat` is missing in the code): only the rows of such a program survive;
+  `pro` and then, block after block, `ExpConstr(exp_var[e0], exp_var[e1], exp_var[e2])` for every
+  cone of the expectation program of the block (`mix_model.exp_constr` is in `st()` order; the
+  source columns of all cones, in `mix_model` coordinates, are `xsrc`).  `gcp.Model.do_math` gives
+  each of them three fresh auxiliary columns `a0 a1 a2` (created after all blocks, in that order)
+  with rows `a0 - x[e0] == 0`, `a1 - x[e1] <= 0`, `a2 - x[e2] == 0` and one `xmat` triple
+  `[a0, a1, a2]`;
 * bounds of the sub-programs are ignored (the code reads `linear/const/sense/qmat/xmat` only);
   the result has no bounds; the cost is all ones (`obj=False`). -/
 
@@ -67,6 +70,17 @@ def colEnd (pro : ConeProg K) (exps : List (ConeProg K × List ℕ)) : ℕ := pr
 /-- number of `lin_constr` rows of `mix_model` -/
 def rowEnd (pro : ConeProg K) (exps : List (ConeProg K × List ℕ)) : ℕ := pro.lp.nr + (rowW exps).sum
 
+/-- source columns, in `mix_model` coordinates, of the exponential cones of `mix_model`, in the
+order of `mix_model.exp_constr`: the cones of `pro` (on the `p` block), then the cones of
+expectation program 0, 1, … (each shifted by the offset of its block) -/
+def xsrc (pro : ConeProg K) (exps : List (ConeProg K × List ℕ)) : List (List ℕ) :=
+  pro.xmat ++ (List.range exps.length).flatMap fun k =>
+    (blk exps k).xmat.map fun e => e.map fun j => j + colOff pro exps k
+
+/-- the column copied by copy row / auxiliary column `o` (cone `o / 3`, component `o % 3`) -/
+def xcol (pro : ConeProg K) (exps : List (ConeProg K × List ℕ)) (o : ℕ) : ℕ :=
+  ((xsrc pro exps).getD (o / 3) []).getD (o % 3) 0
+
 /-- coefficient matrix of the mixed support -/
 def mixA (pro : ConeProg K) (exps : List (ConeProg K × List ℕ)) (i j : ℕ) : K :=
   if i < pro.lp.nr then (if j < pro.lp.nc then pro.lp.a i j else 0)
@@ -78,10 +92,10 @@ def mixA (pro : ConeProg K) (exps : List (ConeProg K × List ℕ)) (i j : ℕ) :
           (blk exps k).lp.a r (j - colOff pro exps k)
         else 0
     | none =>
-        -- copy rows of the exponential cones: `aux[t] - p[e[t]]`
+        -- copy rows of the exponential cones: `aux[t] - x[e[t]]`
         let o := i - rowEnd pro exps
         if j = colEnd pro exps + o then 1
-        else if j = (pro.xmat.getD (o / 3) []).getD (o % 3) 0 then -1 else 0
+        else if j = xcol pro exps o then -1 else 0
 
 /-- sense vector of the mixed support (`true` = equality) -/
 def mixEq (pro : ConeProg K) (exps : List (ConeProg K × List ℕ)) (i : ℕ) : Bool :=
@@ -92,7 +106,7 @@ def mixEq (pro : ConeProg K) (exps : List (ConeProg K × List ℕ)) (i : ℕ) : 
 
 /-- model of `Ambiguity.mix_support(primal=True)` -/
 def mixSupport (pro : ConeProg K) (exps : List (ConeProg K × List ℕ)) : ConeProg K :=
-  let nx := pro.xmat.length
+  let nx := (xsrc pro exps).length
   let ce := colEnd pro exps
   { lp := { nr := rowEnd pro exps + 3 * nx
             nc := ce + 3 * nx
@@ -113,17 +127,24 @@ def mixSupport (pro : ConeProg K) (exps : List (ConeProg K × List ℕ)) : ConeP
 /-- total probability of event `k`: `p[indices].sum()` -/
 def evProb (exps : List (ConeProg K × List ℕ)) (k : ℕ) (π : ℕ → K) : K := ((idx exps k).map π).sum
 
+/-- the non-auxiliary part `[ π | t_1·ν_1 | t_2·ν_2 | … ]` of the lifted point (`0` behind it) -/
+def liftBase (pro : ConeProg K) (exps : List (ConeProg K × List ℕ)) (π : ℕ → K) (ν : ℕ → ℕ → K) :
+    ℕ → K := fun j =>
+  if j < pro.lp.nc then π j
+  else match locate (colW exps) (j - pro.lp.nc) with
+    | some (k, o) => evProb exps k π * ν k o
+    | none => 0
+
 /-- the point of the lifted support built from probabilities (and lifting values) `π` and
 conditional means (and lifting values) `ν k` of every event:
-`[ π | t_1·ν_1 | t_2·ν_2 | … | copies π[e[t]] for the exponential cones ]`, `t_k = evProb k π` -/
+`[ π | t_1·ν_1 | t_2·ν_2 | … | copies x[e[t]] for the exponential cones ]`, `t_k = evProb k π`
+(the copies read `π` for a cone of `pro` and `t_k·ν_k` for a cone of block `k`) -/
 def liftPoint (pro : ConeProg K) (exps : List (ConeProg K × List ℕ)) (π : ℕ → K) (ν : ℕ → ℕ → K) :
     ℕ → K := fun j =>
   if j < pro.lp.nc then π j
   else match locate (colW exps) (j - pro.lp.nc) with
     | some (k, o) => evProb exps k π * ν k o
-    | none =>
-        let o := j - colEnd pro exps
-        π ((pro.xmat.getD (o / 3) []).getD (o % 3) 0)
+    | none => liftBase pro exps π ν (xcol pro exps (j - colEnd pro exps))
 
 /-- decision column that multiplies column `j` of the mixed support in the first-stage row of
 `dro_to_roc` (`alpha @ p + Σ_k var_exp_list[k][:num_rand] @ beta[:, k]`) -/
